@@ -114,6 +114,11 @@ impl<R: Read + Seek> ReadBox<&mut R> for Avc1Box {
                     "avc1 box contains a box with a larger size than it",
                 ));
             }
+            if s == 0 {
+                return Err(Error::InvalidData(
+                    "avc1 box contains a box with size 0",
+                ));
+            }
             if name == BoxType::AvcCBox {
                 let avcc = AvcCBox::read_box(reader, s)?;
 
